@@ -362,6 +362,12 @@ class Model:
             self.rejected += 1
             if why:
                 self.probe("reject_" + why)
+            # the rollback re-applies the old options, which samples the formatted path once more
+            if self.active:
+                p = fmt_path(self.spec, self.now)
+                if p != self.cur and self._can_open(p):
+                    self.probe("rotation")
+                    self._open(p, self.spec, i)
             return
         if has_filt and new_filt != self.filt:
             self.probe("filter_change")
@@ -835,7 +841,8 @@ def execute(sc):
     states = set()
     probes = {}
     ctx = {"diverged": False, "relaxed_from": None, "exp_after": collections.Counter(),
-           "act_after": collections.Counter(), "fault_op": None, "exited": False, "fault_kinds": []}
+           "act_after": collections.Counter(), "fault_op": None, "first_fault_op": None, "exited": False, "nfired": 0,
+           "relaxed_violation": False}
 
     def probe(n):
         probes[n] = probes.get(n, 0) + 1
@@ -851,11 +858,17 @@ def execute(sc):
         ftype = f.type if f is not None else None
         errs = tap.records[nlog0:]
         faulted = fs.first_fault_seq is not None
-        if faulted and ctx["relaxed_from"] is None:
-            ctx["relaxed_from"] = i
-            ctx["fault_op"] = "flush" if out["stop"] else ("completion" if out["completion"] else kind)
+        nfired = sum(fs.fired.values())
+        if nfired != ctx["nfired"]:
+            # where the most recent fault hit: this names the failure mode of whatever goes wrong next
+            ctx["nfired"] = nfired
+            ctx["fault_op"] = "flush" if (out["stop"] or kind == "done") else ("completion" if out["completion"] else kind)
+            if ctx["first_fault_op"] is None:
+                ctx["first_fault_op"] = ctx["fault_op"]
             if out["stop"] or kind == "done":
                 probe("fault_in_flush")
+        if faulted and ctx["relaxed_from"] is None:
+            ctx["relaxed_from"] = i
         log.append((i, kind, op.get("f"), rejected, exited, sorted(new, key=repr), sorted(truncated),
                     [e[1] for e in errs]))
         if f is not None:
@@ -867,6 +880,23 @@ def execute(sc):
             ctx["exp_after"].update(rc for _, rc in out["recs"])
             ctx["exp_after"].update(rc for _, rc in out["opt"])
             ctx["act_after"].update(rc for _, rc in new)
+            # Records may be missing from the failing write on (an unreadable tail counts as missing) and may
+            # reach the disk later than expected (buffering); what is readable must at every moment be a
+            # sub-multiset of what the model allows so far: nothing duplicated, nothing wrong.
+            exp_a, act_a = ctx["exp_after"], ctx["act_after"]
+            if not ctx["relaxed_violation"]:
+                for rc in sorted(act_a - exp_a, key=repr):
+                    ctx["relaxed_violation"] = True
+                    cls = "duplicate_after_fault" if exp_a.get(rc, 0) >= 1 else "unexpected_after_fault"
+                    # failure mode: a failed write in save_flow always ends in sys.exit + done hook; without an
+                    # exit the chain starts where the first fault hit (flush inside done(), or an option update)
+                    during = "completion" if ctx["exited"] else ctx["first_fault_op"]
+                    add_v(cls, {"during": during, "exited": ctx["exited"]},
+                          f"op {i} {op}: after the injected fault ({dict(fs.fired)}, first during op "
+                          f"{ctx['relaxed_from']}, last during a '{ctx['fault_op']}') record {rc} appeared "
+                          f"{act_a[rc]}x, the model allows at most {exp_a.get(rc, 0)}x "
+                          f"(allowed so far: {sorted(exp_a, key=repr)})")
+                    break
             return
         if ctx["diverged"]:
             return
@@ -1057,19 +1087,6 @@ def execute(sc):
 
     # ---- relaxed oracle after an injected I/O error ------------------------------------------------
     if ctx["relaxed_from"] is not None:
-        exp, act = ctx["exp_after"], ctx["act_after"]
-        # Records may be missing from the failing write on (an unreadable tail counts as missing); what is
-        # readable must be a sub-multiset of what the model allows: nothing duplicated, nothing wrong.
-        # The key names where the first fault hit (the root cause), not the fault flavour.
-        for rc in sorted(act - exp, key=repr):
-            if exp.get(rc, 0) >= 1:
-                cls = "duplicate_after_fault"
-            else:
-                cls = "unexpected_after_fault"
-            add_v(cls, {"during": ctx["fault_op"], "exited": ctx["exited"]},
-                  f"after the injected fault ({dict(fs.fired)}, first during op {ctx['relaxed_from']}) record {rc} "
-                  f"appeared {act[rc]}x, the model allows at most {exp.get(rc, 0)}x (allowed: {sorted(exp, key=repr)})")
-            break
         if any(status == "corrupt" for _, status in watch.dirty()):
             probe("unreadable_tail_after_fault")
 
